@@ -29,6 +29,13 @@ done
 cd /repo && git worktree remove --force $WT
 for D in /verif/benign/$P-$TAG*; do
   ID=$(basename $D)
+  if [ -n "$CONTROL_REPO" ]; then
+    # in-process variant (overlay on a scratch worktree): does not touch /repo, usable while a regression runs there
+    cd /verif && out=$(VERIF_REPO=$CONTROL_REPO VERIF_EVIDENCE_DIR=/tmp/verif-exp-evidence ./check $P --control $D/patch.diff 2>&1 | grep "^CONTROL" | cut -c1-600)
+    case "$out" in *missed*) rc=0;; *) rc=1;; esac
+    echo "BENIGN $ID rc=$rc"; [ $rc = 1 ] && echo "  $out"
+    continue
+  fi
   cd /repo; [ -n "$(git status --porcelain)" ] && { echo "repo dirty"; exit 2; }
   git apply $D/patch.diff 2>/dev/null || { echo "BENIGN $ID: patch does not apply"; continue; }
   cd /verif && VERIF_EVIDENCE_DIR=/tmp/verif-exp-evidence ./check $P > /tmp/benign_$ID.out 2>&1; rc=$?
